@@ -1598,7 +1598,8 @@ impl World {
         }
         // the value recorded for the object is what was passed in
         let m = self.reps[r].m.as_ref().unwrap();
-        if cls == "ok" && call != "remove" {
+        // (array descriptors are stored as edit scripts against their previous version, C16: not compared here)
+        if cls == "ok" && call != "remove" && !uuid.starts_with('^') {
             if let Some(rv) = ret.as_str() {
                 match m.get_value(&uuid, Some(rv)) {
                     Ok(v) if v == obj || (obj.is_empty() && v.is_empty()) => {}
